@@ -163,7 +163,15 @@ def unknown_pred(ex, v, pred):
 def b_type(ex, st, args, kwargs, n):
     v = args[0]
     if is_matrix(st, v):
-        sp = mat(st, v).f.get('sparse')
+        o = mat(st, v)
+        sp = o.f.get('sparse')
+        if sp is None:
+            b = o.meta.setdefault('issp', z3.Bool(ex.fresh(
+                'issparse_obj%d' % v.oid)))
+            d = ex.decide(st, b)
+            if d is None:
+                raise NeedFork(b)
+            sp = d
         if sp is False:
             return Ext('cvxopt.matrix')
         if sp is True:
@@ -1080,11 +1088,19 @@ L.pure.add('cvxopt.misc.jnrm2')
 
 @L.register('cvxopt.misc.compute_scaling', mutates=['lmbda'])
 def misc_compute_scaling(ex, st, args, kwargs, n):
+    """returns a new scaling dictionary W with entries 'd','di','v','beta',
+    'r','rti' and, when mnl is given, 'dnl','dnli' (solver-owned)"""
     lm = arg(args, kwargs, 2, 'lmbda')
+    mnl = arg(args, kwargs, 4, 'mnl')
     mutate(ex, st, lm, 'misc.compute_scaling', n)
-    return ex.alloc(st, 'dict', {'items': {}, 'open': True},
-                    {'owner': 'FRESH', 'site': n.lineno, 'name': 'W',
-                     'value_factory': scaling_entry})
+    ref = ex.alloc(st, 'dict', {'items': {}, 'open': False},
+                   {'owner': 'FRESH', 'site': n.lineno, 'name': 'W'})
+    keys = ['d', 'di', 'v', 'beta', 'r', 'rti']
+    if mnl is not None:
+        keys += ['dnl', 'dnli']
+    for k in keys:
+        st.heap[ref.oid].f['items'][k] = scaling_entry(ex, st, ref, k)
+    return ref
 
 
 def scaling_entry(ex, st, ref, key):
